@@ -273,6 +273,7 @@ def run(chk):
     _fiberimg_rule(chk, prog)
     _envvalid_rule(chk, prog)
     _envcount_rule(chk, prog)
+    _framehdr_rule(chk, prog)
 
 
 def _envvalid_rule(chk, prog):
@@ -439,6 +440,73 @@ def _envcount_rule(chk, prog):
                               "environments_length is never compared with that count: the collector and the upvalue instructions "
                               "index the array by the definition's count and read past the object" % (site.text(), count))
     chk.floor(rule, 3, n)
+
+
+def _framehdr_rule(chk, prog):
+    """unmarshal_one_fiber rebuilds the frame chain from image integers.  A frame's header lives in the JANET_FRAME_SIZE
+    slots BELOW its stack offset, so before any header field is stored the offset must be known to be at least
+    JANET_FRAME_SIZE - otherwise the header is written in front of fiber->data (heap underflow), even if a later check
+    goes on to reject the image.  The proof is linear: facts from the dominating comparisons (discarded if a side of
+    the comparison can wrap in 32 bits - `prevframe + JANET_FRAME_SIZE > stack` proves nothing for prevframe near
+    INT32_MAX) plus readnat's contract (result >= 0)."""
+    from rules.c17_copylen import Analysis, _norm
+    from jv.linear import linear
+    rule = "C10-FRAMEHDR"
+    chk.rule(rule, "a frame header of an unmarshalled fiber is stored only at an offset proved >= JANET_FRAME_SIZE (without relying on a wrapping comparison)")
+    fn = prog.need_func("unmarshal_one_fiber", "marsh.c")
+    chk.analysed(fn)
+    FS = prog.macros.get("JANET_FRAME_SIZE")
+    # frame pointer locals: X = janet_stack_frame(<data> + <offset>)  /  through an intermediate pointer
+    ptrs = {}
+    base = {}
+    for x in fn.nodes:
+        if x.k == "vardecl" and x.kids:
+            r = strip_casts(x.kids[0])
+            if r.k == "bin" and r.op == "+" and any(y.k == "mem" and y.field == "data" for y in r.kids[0].walk()):
+                base[x.name] = strip_casts(r.kids[1])
+            if x.kids[0].in_macro("janet_stack_frame") or any(y.in_macro("janet_stack_frame") for y in x.kids[0].walk()):
+                for y in x.kids[0].walk():
+                    if is_ref(y) and y.name in base:
+                        ptrs[x.name] = base[y.name]
+    if not ptrs:
+        raise AnalysisBroken("unmarshal_one_fiber: frame pointer derived from fiber->data + offset not found")
+
+    class A2(Analysis):
+        def transfer(self, st, x):
+            st = Analysis.transfer(self, st, x)
+            tgt = rhs = None
+            if x.k == "vardecl" and x.kids:
+                tgt, rhs = x.name, strip_casts(x.kids[0])
+            if tgt and rhs is not None and rhs.k == "call" and rhs.callee == "readnat":
+                st = st | {("ge",) + _norm({tgt: 1}, 0)}
+            return st
+    A = A2(prog, fn)
+    IN, OUT, T = flow.forward_paths(fn, frozenset(), A.transfer, edge=A.edge, cap=512)
+    n = 0
+    fsizes = set(y.v for y in fn.nodes if y.v is not None and "JANET_FRAME_SIZE" in y.macro_names() and y.k != "bin")
+    fsizes = set(v for v in fsizes if 1 <= v <= 16)
+    if len(fsizes) != 1:
+        raise AnalysisBroken("unmarshal_one_fiber: value of JANET_FRAME_SIZE not recovered (%s)" % sorted(fsizes))
+    fsize = fsizes.pop()
+    for x, S in flow.states_at(fn, IN, T):
+        if x.k == "asg" and x.kids[0].k == "mem" and x.kids[0].rec == "JanetStackFrame" and is_ref(strip_casts(x.kids[0].kids[0])) \
+                and strip_casts(x.kids[0].kids[0]).name in ptrs:
+            off = ptrs[strip_casts(x.kids[0].kids[0]).name]
+            ln = linear(off)
+            if ln is None:
+                raise AnalysisBroken("frame offset `%s` is not linear" % off.text())
+            n += 1
+            chk.instance(rule)
+            goal = (dict(ln[0]), ln[1] - fsize)      # offset - JANET_FRAME_SIZE >= 0
+            bad = [ps for ps in S if not A.proves(ps, goal)]
+            if bad:
+                chk.violation(rule, "marsh.c", fn.name, "header:%s" % x.kids[0].field, x.loc,
+                              "`%s` writes a frame header field for a frame at offset `%s`, which is not proved to be >= "
+                              "JANET_FRAME_SIZE here (a comparison that can wrap in 32 bits proves nothing): the header lands in front "
+                              "of fiber->data" % (x.text()[:50], off.text()))
+            else:
+                chk.ok(rule, "%s at offset %s >= JANET_FRAME_SIZE" % (x.kids[0].text(), off.text()))
+    chk.floor(rule, 4, n)
 
 
 # ------------------------------------------------------------------------------------------------
@@ -859,6 +927,61 @@ def _boxing_rule(chk, prog):
                                       "pointer-tagged value" % n.callee)
     if cnt < 1:
         raise AnalysisBroken("no number boxing found in unmarshal_one*")
+    # the safe boxer itself: with nan-boxing every NaN bit pattern other than the canonical one may carry a type tag
+    # (janet_type only tests isnan and then reads the tag bits), so the parameter may be stored raw only where it is
+    # known not to be a NaN; every NaN must become the constant NAN
+    wtu = Program.load("default", units=["wrap.c"]).tus["wrap.c"]
+    fn = wtu.funcs.get("janet_wrap_number_safe")
+    if fn is None:
+        raise AnalysisBroken("janet_wrap_number_safe not found")
+    chk.analysed(fn)
+    par = fn.params[0]["n"]
+    nanboxed = any(x.k == "asg" and x.kids[0].k == "mem" and x.kids[0].field == "number" for x in fn.nodes)
+    chk.instance(rule)
+    if not nanboxed and not any("isnan" in x.macro_names() for x in fn.nodes):
+        # tagged-union representation (JANET_NO_NANBOX): a double cannot alias a tag
+        chk.ok(rule, "janet_wrap_number_safe: no nan-boxing in this configuration")
+    else:
+        IN, T = flow.condition_facts(fn)
+        bad = None
+        for x, S in flow.states_at(fn, IN, T):
+            raw = None
+            if x.k == "asg" and x.op == "=":
+                r = strip_casts(x.kids[1])
+                if is_ref(r, par):
+                    raw = x
+                elif r.k == "cond":
+                    c, a, b = r.kids
+                    isnan_true = c.k == "call" and "isnan" in c.macro_names() and any(is_ref(y, par) for y in c.walk())
+                    if isnan_true and is_ref(strip_casts(b), par) and not any(is_ref(y, par) for y in a.walk()):
+                        continue
+                    if any(is_ref(y, par) for y in r.walk()):
+                        raw = x
+            elif x.k == "vardecl" and x.kids:
+                r = strip_casts(x.kids[0])
+                if r.k == "cond":
+                    c, a, b = r.kids
+                    isnan_true = c.k == "call" and "isnan" in c.macro_names() and any(is_ref(y, par) for y in c.walk())
+                    if isnan_true and is_ref(strip_casts(b), par) and not any(is_ref(y, par) for y in a.walk()):
+                        continue
+                if is_ref(r, par) or (r.k == "cond" and any(is_ref(y, par) for y in r.walk())):
+                    raw = x
+            elif x.k == "call" and x.callee in ("janet_wrap_number", "janet_nanbox_from_double") and any(is_ref(strip_casts(a), par) for a in x.args):
+                raw = x
+            if raw is None:
+                continue
+            # stored raw: needs isnan(d) known false on every path
+            for ps in S:
+                ok = any(op == "==" and ln is not None and ln.k == "call" and "isnan" in ln.macro_names()
+                         and any(is_ref(y, par) for y in ln.walk()) and rn is None for (op, l, r_, _, ln, rn) in ps)
+                if not ok:
+                    bad = raw
+        if bad is not None:
+            chk.violation(rule, "wrap.c", fn.name, "raw:%s" % par, bad.loc,
+                          "`%s` boxes the double as it is on a path where isnan(%s) has not been excluded: a NaN whose payload "
+                          "carries type-tag bits comes out of the 'safe' boxer as a string/table/pointer value" % (bad.text()[:60], par))
+        else:
+            chk.ok(rule, "janet_wrap_number_safe: every NaN is replaced by the canonical NAN before boxing")
 
 
 def _fiberimg_rule(chk, prog):
